@@ -209,7 +209,7 @@ SHARDED_TEXT = {
     'C01': " Sharded get returns a read-only handle on the inode bound under one of the two candidate paths of exactly that key.",
     'C02': " Sharded: shard directories and their .kismet_temp are the only directories ever created (sharded_frame / sharded_temp_frame).",
 }
-STACK_NC = 'the stacked front-end (stack.rs / readonly.rs: Cache, ReadOnlyCache, get_or_update/ensure/promotion) is not under contract yet'
+STACK_NC = None   # stack.rs / readonly.rs are under contract (unit u6_stack)
 SHARD_NC = None
 CONC_NC = ('interleavings with other participants are not quantified over: the contracts are sequential; only the per-step protocol guarantees '
            '(preconditions on private files) are schedule-independent')
@@ -240,7 +240,7 @@ _u4('C02', 'Unbounded proof of the crash invariant at every call boundary: every
     'is read-only and holds bytes supplied for that key), rename/link require the publish guarantee (private, read-only, stamped, synced if required, supplied for that key), '
     'and every function under contract ensures valid on every exit including errors; only cache directories and .kismet_temp are ever created; stale temp files are the only '
     'temp files ever removed.',
-    not_covered=['debris older than the limit is eventually removed (completeness)', 'temp-file creation sites live in stack.rs', SHARD_NC, STACK_NC])
+    not_covered=['debris older than the limit is eventually removed (completeness)', 'removal of our own temporary files on error paths is Drop of NamedTempFile / TempPath, invisible to contracts', SHARD_NC, STACK_NC])
 _u4('C18', 'Unbounded proof with failure enabled at every POSIX stub (any call may fail, any number of them): every operation ensures valid on every exit, Ok implies its effect '
     '(success-means-bound, exact effects when no fault occurred), errors are explained (invalid name, absent source, or a counted hard fault) and panic-freedom '
     '(assert!/expect/unwrap/arithmetics are proof obligations).',
@@ -263,16 +263,22 @@ _u4('C11', 'Proof of the exact sequential effect of plain-directory operations o
     'set binds the key to the source inode, consumes the source, after maintenance; put inserts when absent and otherwise only marks; every disappearance is a plan victim '
     'of a directory that was listed (cleanup_frame) or a stale temp file.',
     not_covered=[SHARD_NC, STACK_NC, 'the lifting from per-operation effects to whole histories is the standard induction, not mechanised'])
-_u4('C01', 'Proof of the publish protocol (sequential model): a file becomes visible under a key only through rename/link whose precondition demands a private, read-only, freshly '
-    'stamped source holding bytes supplied for exactly that key; published inodes are never written or made writable (stub preconditions); a lookup returns a read-only handle on '
-    'the inode bound to exactly child(base,name).',
+_u4('C01', 'Proof (sequential model) of the publish protocol and of what lookups return: a file becomes visible under a key only through rename/link whose precondition demands a private, '
+    'read-only, freshly stamped source holding bytes supplied for exactly that key; only a file no reader can see is ever written (preconditions of the copy and populate stubs); published '
+    'inodes are never written or made writable; no write changes the bytes of any file (bytes_kept). Every handle returned by CacheDir::get, plain/sharded get, ReadOnlyCache::get, '
+    'Cache::get::doit and Cache::get_or_update denotes an inode whose bytes are a value supplied for exactly that key (postcondition, from World.valid).',
     not_covered=[CONC_NC, SHARD_NC, STACK_NC])
-_u4('C19', 'Proof that CacheDir::get returns a handle with can_write == false on the entry inode, that set_read_only clears the write bits before any publication (publish guarantee) '
-    'and that chmod may add write permission only to an inode no visible name binds.',
-    not_covered=['offsets / rewinds and mode 0444 of library-populated files are in stack.rs', STACK_NC, SHARD_NC])
-_u4('C03', 'Proof that rename/link require `must_sync ==> synced` and `!writable` of the source (publish guarantee) at both publishing sites of raw_cache, that nothing in raw_cache / cache_dir '
-    'clears the synced flag, and that chmod/write stubs cannot touch a visible inode.',
-    not_covered=['where the flush happens (Cache::maybe_sync_path, finalize_tempfile, promote) is in stack.rs', STACK_NC])
+_u4('C19', 'Proof that every handle returned by CacheDir::get, plain/sharded get, ReadOnlyCache::get, Cache::get::doit and Cache::get_or_update is positioned at offset 0, and is read-only '
+    'unless it is the fresh throw-away file of a cache without write side; that finalize_tempfile forces mode 0444 whatever the umask (fchmod with the constant 0o444, bit-vector proof that '
+    'it has no write bit) on every file the library populates or receives as a temp-file object before it reaches set/put; that set_read_only clears the write bits before any publication '
+    '(publish guarantee) and that chmod may add write permission only to an inode no visible name binds.',
+    replayer=_native('c13', [], []),
+    not_covered=['umask itself is not modelled: the proof is that the mode passed to fchmod is the constant 0o444'])
+_u4('C03', 'Proof that rename/link require `must_sync ==> synced` and `!writable` of the source (publish guarantee) at both publishing sites of raw_cache; that set/put of the FullCache trait '
+    'require a flushed source when auto_sync is on (value_ok), and that every publishing path of stack.rs establishes it: set::doit / put::doit through maybe_sync_path (open + fsync, '
+    'documented panic on failure), set_temp_file / put_temp_file / get_or_update miss and replace through Cache::finalize_tempfile, promotion through finalize_tempfile(tmp, auto_sync) '
+    'after the copy; a failed flush returns Err before any publication; nothing clears the synced flag except writing, and only invisible files are ever written.',
+    not_covered=['the two-line shims Cache::{set, put, set_temp_file, put_temp_file} that forward to the `doit` functions under contract are generic and dropped'])
 PROPS['C10']['units'] = ['u2_trigger', 'u6_stack']
 PROPS['C10']['assumptions'] += FS_ASSUMPTIONS
 PROPS['C10']['not_covered'] = []
@@ -289,18 +295,33 @@ STACK_ASSUME = [
     'a consistency checker only reads its two files (the handles keep denoting the same inodes and stay read-only) and its verdict is a function of the two files '
     '(contract of the stand-in ConsistencyChecker::call, which replaces `Arc<dyn Fn(&mut File, &mut File) -> Result<()> + markers>`: T7)',
     'the generic public shims of ReadOnlyCache / Cache are specialised to `Key` (T11) or dropped (one forwarding call each)',
-    'Cache.consistency_checker and the read side were given the same checker by the builder (not under contract)',
+    'Cache.consistency_checker and the read side were given the same checker by the builder (CacheBuilder is not under contract; stated as a precondition of get_or_update)',
+    'populate callback (stand-in call_populate, T1): it writes only the file it is handed and may read anything; on success what it wrote is by definition a value supplied for this key; '
+    'any error it returns is counted in World.app_errors',
+    'judge callback (precondition judge_reads_only of get_or_update): it hands back the same handle (it may read and seek it)',
+    'read-only roots hold only files that other Kismet writers published (World.ro_valid, part of the invariant the stubs preserve because no mutating stub accepts a path under a read-only root)',
+    'std::io::copy, tempfile::{tempfile, tempfile_in, NamedTempFile::{new_in, as_file_mut, into_parts}} as written in contracts/prelude (copy is one atomic step; anonymous temporary files have no name)',
+    'T14: `opt.and_then(|c| c.get(key).transpose()).transpose()` is rewritten to the equal match expression; `self.write_side.as_ref().map(Arc::as_ref)` to the stand-in opt_arc_as_ref',
+    'Cache::ensure (one forwarding call to get_or_update with the constant judge Promote and an adapter closure) and the CacheBuilder are not under contract',
 ]
 _u4('C13', 'Unbounded proof, for stacks of any depth: ReadOnlyCache::get/touch return / mark the copy of the first level in registration order that holds one '
-    '(first_copy) and report a miss only if no level holds one; Cache::get::doit / touch::doit consult the write cache first and return / mark its copy when it has one, '
-    'otherwise the read-only result; every returned handle is read-only at offset 0; levels are abstract (trait contracts of ReadSide / FullCache, which the plain and '
-    'sharded implementations are proved to satisfy).',
-    not_covered=['ensure / get_or_update (Accept, Promote, Replace, miss), set/put without a write cache: stack.rs functions not under contract yet'],
+    '(first_copy) and report a miss only if no level holds one; Cache::get::doit / touch::doit consult the write cache first. Cache::get_or_update (the verbatim body, generic in '
+    'judge and populate): a write-cache hit is passed to the judge as Primary, otherwise the first read-only copy as Secondary (exists over call_ensures of the judge); '
+    'Accept, and Promote of a primary hit or without a write cache, return the hit with no publication and no change to any name a lookup resolves (namespace_same); Promote of a '
+    'secondary hit returns the hit and publishes an identical copy (promote: whole-file copy into a fresh .kismet_temp file, finalize, put); Replace returns a fresh inode and, '
+    'with a write cache, publishes it (set); a miss publishes the populated file (put) or, without a write cache, returns a fresh throw-away file and changes no name; '
+    'set_impl / put_impl without a write cache fail as Unsupported with the World unchanged.',
+    replayer=_native('c13', [], []), thorough=_thorough_native('C13', 'c13', [], 'real Cache::get_or_update over writer {none, plain, sharded} x key location x action x populate outcome x checker'),
+    not_covered=['Cache::ensure (a one-call wrapper around get_or_update with the constant judge Promote) is not itself under contract',
+                 'that a published copy stays bound afterwards is not claimed for sharded write caches (a forced maintenance of the same shard may evict it)'],
     extra_assume=STACK_ASSUME)
 _u4('C14', 'Unbounded proof, for stacks of any depth: with a checker configured, ReadOnlyCache::get succeeds only if the checker accepted the first copy against every copy held by a later '
-    'level (later_copies_accepted), and Cache::get::doit with a write-side hit only if the checker accepted that hit against the first read-only copy and that copy against every later one; '
-    'a rejected comparison or a failed lookup reaches the caller as Err; without a checker no level after the first hit is consulted (open-attempt bound 2*(idx+1)).',
-    not_covered=['the hit-vs-populate comparison and the NotFound exemption of ensure / get_or_update; checker panics (no catch_unwind exists in the functions under contract; not a contract)'],
+    'level (later_copies_accepted); Cache::get::doit and Cache::get_or_update with a write-side hit only if the checker accepted that hit against the first read-only copy and that copy '
+    'against every later one (read_copies_accepted); get_or_update with an accepted or promoted hit returns Ok only if populate reported NotFound (World.app_not_found grew) or the checker '
+    'accepted the hit against a freshly created, populated file; a rejected comparison or a failed lookup reaches the caller as Err; without a checker no level after the first hit is consulted.',
+    replayer=_native('c13', [], []),
+    not_covered=['checker panics (no catch_unwind exists in the functions under contract; unwinding is not a contract)',
+                 ],
     extra_assume=STACK_ASSUME)
 
 NOT_CLAIMED = {
